@@ -353,11 +353,11 @@ Definition accept_play (s : server) (sid : N) (key : bytes) (clock : N) : call :
   | None => (s, RErr (SInactiveStream sid))
   | Some _ =>
     let s1 := upd_streams s (insert sid (StPlaying key) (sv_streams s)) (sv_next_stream s) in
-    sending s1 (MUserControl StreamBegin (Some sid) None None) clock sid false false (fun s2 b_begin =>
-    sending s2 (onstatus "status" "NetStream.Play.Start" (str "Successfully started playback on stream key " ++ key)) clock sid false false (fun s3 b_start =>
-    sending s3 (MAmf0Data [VString (str "|RtmpSampleAccess"); VBoolean false; VBoolean false]) clock sid false false (fun s4 b_d1 =>
-    sending s4 (MAmf0Data [VString (str "onStatus"); VObject [(str "code", VString (str "NetStream.Data.Start"))]]) clock sid false false (fun s5 b_d2 =>
-    sending s5 (onstatus "status" "NetStream.Play.Reset" (str "Reset stream")) clock sid false false (fun s6 b_reset =>
+    sending s1 (onstatus "status" "NetStream.Play.Reset" (str "Reset stream")) clock sid false false (fun s2 b_reset =>
+    sending s2 (MUserControl StreamBegin (Some sid) None None) clock sid false false (fun s3 b_begin =>
+    sending s3 (onstatus "status" "NetStream.Play.Start" (str "Successfully started playback on stream key " ++ key)) clock sid false false (fun s4 b_start =>
+    sending s4 (MAmf0Data [VString (str "|RtmpSampleAccess"); VBoolean false; VBoolean false]) clock sid false false (fun s5 b_d1 =>
+    sending s5 (MAmf0Data [VString (str "onStatus"); VObject [(str "code", VString (str "NetStream.Data.Start"))]]) clock sid false false (fun s6 b_d2 =>
     (s6, ROk [SPacket b_reset false; SPacket b_begin false; SPacket b_start false; SPacket b_d1 false; SPacket b_d2 false]))))))
   end.
 
